@@ -209,7 +209,7 @@ class Ctx:
         except expect as exc:  # type: ignore[misc]
             return exc
         except Exception as exc:  # noqa: BLE001
-            if solver and isinstance(exc, self.solver_types()):
+            if solver and (isinstance(exc, self.solver_types()) or _raised_inside_numerical_solver(exc)):
                 self.solver_fail[name + ":" + type(exc).__name__] += 1
                 return FAILED
             site = raise_site(exc)
@@ -222,6 +222,17 @@ class Ctx:
                 signal.alarm(0)
                 if remaining:
                     signal.alarm(max(1, int(remaining - (time.monotonic() - t0))))
+
+
+def _raised_inside_numerical_solver(exc):
+    """True when the innermost frame of the traceback is inside cvxopt's numerical core (e.g. ValueError 'math domain error'
+    from a square root in its step computation): an instance-level solver failure, not a property of the library under test."""
+    tb = exc.__traceback__
+    last = None
+    while tb is not None:
+        last = tb.tb_frame.f_code.co_filename
+        tb = tb.tb_next
+    return bool(last) and (os.sep + "cvxopt" + os.sep) in last
 
 
 def raise_site(exc):
